@@ -236,6 +236,7 @@ func c15Units(tier string) []Unit {
 	// the child came to see it)
 	add("shadowing-cycles", h.Config{}, alpha{scopes: sc, ctors: []*uFunc{pA, pB, rAB, pCb}, invokes: []*uFunc{iA, iB}})
 	add("defer/zero-parameter-functions", h.Config{Defer: true}, alpha{scopes: sc, ctors: []*uFunc{rAB, pB, pA}, invokes: []*uFunc{i0, iA}})
+	add("failing-first-parameter", h.Config{}, alpha{scopes: sc, ctors: []*uFunc{pA, pAd, pBd, pCb}, invokes: []*uFunc{iBA, iCA}})
 	add("two-groups-in-one-object", h.Config{}, alpha{scopes: sc, ctors: []*uFunc{pGG, fAgC, fH}, invokes: []*uFunc{iC}})
 	add("same-type-two-names-cycles", h.Config{}, alpha{scopes: sc, ctors: []*uFunc{pA, pBaa, rAnB, pAn}, invokes: []*uFunc{iB}})
 	if !q {
@@ -248,4 +249,10 @@ var (
 	pABo = u.F("pABo", "", "A,B")
 	pABn = u.F("pABn", "", "A,B", u.Name("n"))  // the Name option applies to every result
 	pABg = u.F("pABg", "", "A,B", u.Group("g")) // and so does Group
+)
+
+var (
+	pBd = u.F("pBd", "D", "B") // B whose dependency D nobody provides
+	iBA = u.F("iBA", "B,A", "")
+	iCA = u.F("iCA", "C,A", "")
 )
